@@ -296,6 +296,20 @@ def check(tier='quick', seed=0):
         mf2 = sim.misfit
         if abs(mf2 - mf) > 1e-9 * max(1.0, abs(mf)):
             return fail(clause='misfit after clean(computed) differs (weights corrupted?)', first=float(mf), second=float(mf2), **lab)
+        # the noise model is assigned anew on the survey of the simulation (explicit assignment), the simulation cleaned, the misfit evaluated
+        # again: it is the misfit for the standard deviation set NOW
+        for what, assign in (('relative_error = 0.11', lambda sv: setattr(sv, 'relative_error', 0.11)), ('noise_floor = 7e-11', lambda sv: setattr(sv, 'noise_floor', 7e-11)),
+                             ('standard_deviation = explicit array', lambda sv: setattr(sv, 'standard_deviation', np.abs(ob_) * 0.3 + 1e-11))):
+            assign(sim.survey)
+            sim.clean('computed')
+            mf3 = sim.misfit
+            std3 = np.asarray(sim.survey.standard_deviation.data)
+            syn3 = np.asarray(sim.data.synthetic.data)
+            m3 = np.isfinite(ob_) & np.isfinite(syn3) & np.isfinite(std3)
+            want3 = 0.5 * np.sum(np.abs(syn3[m3] - ob_[m3]) ** 2 / std3[m3] ** 2)
+            if abs(mf3 - want3) > 1e-9 * max(1.0, abs(want3)):
+                return fail(clause='misfit after an explicit assignment of the noise model and clean(computed) is the misfit for the standard deviation set now',
+                            assignment=what, got=float(mf3), want=float(want3), **lab)
         return None
 
     for explicit in (False, True):
